@@ -136,6 +136,11 @@ def single_window_blocks(ctx, rng):
         freq = hvgen.gen_freq(rng)
         rows = [hvgen.gen_curve_set(rng, freq, k, outliers=False) for k in counts]
         azs = sorted(float(a) for a in rng.choice(np.arange(0, 180, 5), naz, replace=False))
+        if j % 2 == 0:
+            # ... and equal neighbours among them ([30, 30, 120] holding [1, 3, 2] windows): only the restart of the numbering at one separates the two blocks
+            # (seed C12-Y of round 10 compared "numbering drops", which misses a one-window block in front of its twin)
+            k = int(rng.integers(0, naz - 1))
+            azs[k + 1] = azs[k]
         if j % 4 == 1:
             azs[0] = float(rng.choice([1e-05, 2.5e-06, 1e-10]))     # printed without a decimal point ('1e-05'): the witness class of repaired defect C12-b
         m = Mirror.az(7000 + j, freq, rows, azs)
